@@ -66,7 +66,11 @@ def effects_of(fn: ast.FunctionDef):
         if _is_self_attr(t):
             out.append(("rebind", t.attr))
         elif isinstance(t, ast.Subscript) and _is_self_attr(t.value):
-            out.append(("mutate", t.value.attr))
+            if t.value.attr == "__dict__" and isinstance(t.slice, ast.Constant) and isinstance(t.slice.value, str):
+                # self.__dict__["name"] = v  is  self.name = v  (the copy owns its __dict__)
+                out.append(("rebind", t.slice.value))
+            else:
+                out.append(("mutate", t.value.attr))
         elif isinstance(t, (ast.Tuple, ast.List)):
             for e in t.elts:
                 store(e)
@@ -135,8 +139,11 @@ def _decorated_generative(fn):
 
 
 def scan(repo):
-    """returns {qualified method name: [effects]} for every @_generative method, helper calls inlined one level"""
+    """returns {qualified method name: [effects]} for every @_generative method; calls to helper methods on
+    self are inlined one level: first from the same class, else from the unique class (among the scanned files)
+    defining that name; anything else stays ("opaque", name)"""
     table = {}
+    classes = []
     for rel in FILES:
         path = os.path.join(repo, rel)
         if not os.path.exists(path):
@@ -144,21 +151,34 @@ def scan(repo):
         tree = ast.parse(open(path).read())
         for cls in [n for n in ast.walk(tree) if isinstance(n, ast.ClassDef)]:
             methods = {m.name: m for m in cls.body if isinstance(m, (ast.FunctionDef, ast.AsyncFunctionDef))}
-            for name, m in methods.items():
-                if not _decorated_generative(m):
-                    continue
-                eff = []
-                for e in effects_of(m):
-                    if e[0] == "call":
-                        h = methods.get(e[1])
-                        if h is not None and not _decorated_generative(h):
-                            for e2 in effects_of(h):
-                                eff.append(e2 if e2[0] != "call" else ("opaque", e2[1]))
-                        else:
-                            eff.append(("opaque", e[1]))
+            classes.append((rel, cls, methods))
+    by_name = {}
+    for rel, cls, methods in classes:
+        for name, m in methods.items():
+            by_name.setdefault(name, []).append(m)
+
+    def helper(methods, name):
+        h = methods.get(name)
+        if h is None and len(by_name.get(name, [])) == 1:
+            h = by_name[name][0]
+        return h
+
+    for rel, cls, methods in classes:
+        for name, m in methods.items():
+            if not _decorated_generative(m):
+                continue
+            eff = []
+            for e in effects_of(m):
+                if e[0] == "call":
+                    h = helper(methods, e[1])
+                    if h is not None and not _decorated_generative(h):
+                        for e2 in effects_of(h):
+                            eff.append(e2 if e2[0] != "call" else ("opaque", e2[1]))
                     else:
-                        eff.append(e)
-                table["%s:%s.%s" % (os.path.basename(rel)[:-3], cls.name, name)] = eff
+                        eff.append(("opaque", e[1]))
+                else:
+                    eff.append(e)
+            table["%s:%s.%s" % (rel[len("lib/"):-3].replace("/", "."), cls.name, name)] = eff
     return table
 
 
